@@ -20,7 +20,7 @@ CONSTANTS Family,
           HttpBehs, TcpBehs,     \* chain / stall: behaviours assigned to the HTTP(S) endpoints / the TCP endpoint
           Classes,               \* endpoint classes
           D,                     \* cache / cdn: number of operations in a program
-          SplitCls, ShapeSel, CutMode    \* split: class, shapes to use, "one" | "marks" | "two" | "both"
+          SplitCls, ShapeSel, CutModes   \* split: class, shapes to use, subset of {"one", "marks1", "marks2", "sparse"}
 
 VARIABLES cfg, st, hist
 
@@ -31,7 +31,7 @@ Beh3(a, b, c) == [https |-> a, http |-> b, tcp |-> c]
 
 Cfg(fam, cache, ttl, cls, beh, beh2) ==
   [fam |-> fam, cache |-> cache, ttl |-> ttl, cls |-> cls, beh |-> beh, beh2 |-> beh2, docs |-> AbsDocs,
-   resp |-> EmptyResp, shape |-> "", cuts |-> <<>>]
+   resp |-> EmptyResp, sh |-> 0, shape |-> "", cuts |-> <<>>]
 
 \* ---- chain / stall --------------------------------------------------------
 \* TCP-only classes never look at the HTTP behaviours: two assignments are enough to see that
@@ -68,20 +68,26 @@ CacheOps(c, h) ==
        \cup (IF \A i \in 1..Len(h) : h[i].op # "flip" THEN {OpFlip} ELSE {})
 
 \* ---- split --------------------------------------------------------------------
+\* The shapes are the driver's concretisation table (drv_failover --dump-shapes <class>): per shape the
+\* length, the positions of the LF bytes, from which prefix length the MIME test succeeds, and the
+\* positions of interior empty lines.  The state only carries the index of the shape.
 Shapes == ndJsonDeserialize(IOEnv.SHAPES)
 ShapeR(s) == [len |-> s.len, nl |-> SetOfSeq(s.nl), mime_at |-> s.mime_at, nb512 |-> s.nb512,
               prefix |-> {<<s.blank[i], "trunc">> : i \in 1..Len(s.blank)}]
+RespOf(c) == IF c.sh = 0 THEN c.resp ELSE ShapeR(Shapes[c.sh])
 Landmarks(r) == {c \in 1..(r.len - 1) :
                    \/ c \in r.nl \/ (c + 1) \in r.nl \/ (c - 1) \in r.nl
                    \/ c \in {r.mime_at - 1, r.mime_at, r.mime_at + 1, 511, 512, 513}
                    \/ c % 8192 = 0}
+Sparse(r) == {c \in 1..(r.len - 1) : NN(r, c) \/ NN(r, c + 1) \/ c % 8192 = 0 \/ c \in {r.mime_at - 1, r.mime_at, 512}}
 CutSets(r) ==
-  (IF CutMode \in {"one", "both"} THEN {<<c>> : c \in 1..(r.len - 1)} ELSE {})
-  \cup (IF CutMode = "marks" THEN {<<c>> : c \in Landmarks(r)} ELSE {})
-  \cup (IF CutMode \in {"two", "both", "marks"} THEN {<<q[1], q[2]>> : q \in {z \in Landmarks(r) \X Landmarks(r) : z[1] < z[2]}} ELSE {})
+  (IF "one" \in CutModes THEN {<<c>> : c \in 1..(r.len - 1)} ELSE {})
+  \cup (IF "marks1" \in CutModes THEN {<<c>> : c \in Landmarks(r)} ELSE {})
+  \cup (IF "sparse" \in CutModes THEN {<<c>> : c \in Sparse(r)} \cup {<<>>} ELSE {})
+  \cup (IF "marks2" \in CutModes THEN {<<q[1], q[2]>> : q \in {z \in Landmarks(r) \X Landmarks(r) : z[1] < z[2]}} ELSE {})
 SplitBeh == IF TcpOnly(SplitCls) THEN Beh3("OkBpsv", "OkBpsv", "OkBpsv") ELSE Beh3("Refused", "H503", "OkBpsv")
 SplitCfgsOk ==
-  UNION {{[Cfg("split", "mem", "long", SplitCls, SplitBeh, SplitBeh) EXCEPT !.resp = ShapeR(Shapes[i]), !.shape = Shapes[i].shape, !.cuts = cs] :
+  UNION {{[Cfg("split", "mem", "long", SplitCls, SplitBeh, SplitBeh) EXCEPT !.sh = i, !.shape = Shapes[i].shape, !.cuts = cs] :
             cs \in CutSets(ShapeR(Shapes[i]))} : i \in {j \in 1..Len(Shapes) : Shapes[j].shape \in ShapeSel}}
 
 \* ---- the machine ----------------------------------------------------------------
@@ -121,11 +127,11 @@ InvCacheGood   == ClauseCacheGood(cfg, st, AnyDocs \cup {pr[2] : pr \in cfg.resp
 InvSomeOutcome == \A p \in Paths : Outcomes(cfg, st, p, AnyDocs) # {}      \* the statement never forbids everything
 \* split: the code-shaped reader returns the whole response on this split, unless the shape is not Safe
 InvSplit == Family = "split" =>
-              (ReadCode(cfg.resp, SetOfSeq(cfg.cuts)) = cfg.resp.len \/ ~Safe(cfg.resp))
+              LET r == RespOf(cfg) IN ReadCode(r, SetOfSeq(cfg.cuts)) = r.len \/ ~Safe(r)
 
 Row == [fam |-> cfg.fam, cache |-> cfg.cache, ttl |-> cfg.ttl, cls |-> cfg.cls, beh |-> cfg.beh, beh2 |-> cfg.beh2,
         shape |-> cfg.shape, cuts |-> cfg.cuts, ops |-> hist,
-        pred |-> IF Family = "split" THEN ReadCode(cfg.resp, SetOfSeq(cfg.cuts)) ELSE 0]
+        pred |-> IF Family = "split" THEN ReadCode(RespOf(cfg), SetOfSeq(cfg.cuts)) ELSE 0]
 Emit == Len(hist) = Len0 => PrintT(<<"PROGRAM", ToJson(Row)>>)
 
 =============================================================================
